@@ -915,7 +915,7 @@ func (e *Engine) isInitPkg(pkg *ssa.Package) bool {
 		}
 	}
 	// goag's own packages are initialised (their package-level values are plain)
-	return strings.HasPrefix(pkg.Pkg.Path(), "github.com/vkd/goag")
+	return strings.HasPrefix(pkg.Pkg.Path(), "github.com/vkd/goag") || strings.HasPrefix(pkg.Pkg.Path(), "vscratch/")
 }
 
 // isTimeLike: time.Time or a named type defined as time.Time.
